@@ -1518,10 +1518,20 @@ class _FuncAnalysis:
                         break
             if isptr[i]:
                 reg = self.region_of(args[i], st)
-                if reg is not None and reg.cap is not None and reg.cap.is_const():
+                capc = None
+                if reg is not None and reg.cap is not None:
+                    if reg.cap.is_const():
+                        capc = reg.cap.c
+                    else:
+                        # a heap block: its capacity is a symbol tied to the allocation size by facts
+                        cands = sorted({abs(f.c) for f in st.facts if any(q in f.t for q in reg.cap.t) and len(f.t) == 1}, reverse=True)
+                        capc = next((c for c in cands if self.entails(st, reg.cap - Lin.const(c))), None)
+                if capc is not None:
                     off = lins[i] - reg.base
-                    if off.is_const() and 0 <= off.c <= reg.cap.c:
-                        caps[i] = reg.cap.c - off.c
+                    if off.is_const() and 0 <= off.c <= capc:
+                        caps[i] = capc - off.c
+                    elif self.entails(st, off) and self.entails(st, -off):
+                        caps[i] = capc
             for j in range(n):
                 if j == i or lins[j] is None or isptr[i] != isptr[j]:
                     continue
